@@ -313,6 +313,7 @@ func RunCheck(opts CheckOpts) *CheckReport {
 					ans = a2
 				}
 			}
+			ans = preferSmall(o, ans, opts, work)
 			results[i] = &OblResult{O: o, Ans: ans, OK: ans.Result == o.Expect, Elapsed: time.Since(t).Seconds()}
 		}(i, o)
 	}
@@ -644,4 +645,26 @@ func firstLines(s string, n int) []string {
 		l = l[:n]
 	}
 	return l
+}
+
+// preferSmall: when an obligation is refuted, look for a counterexample small enough to replay.
+func preferSmall(o *Obligation, ans SolverAnswer, opts CheckOpts, work string) SolverAnswer {
+	if o.Expect != "unsat" || ans.Result != "sat" || len(o.Small) == 0 {
+		return ans
+	}
+	q2 := *o.Query
+	q2.Asserts = append(append([]*Term{}, o.Query.Asserts...), o.Small...)
+	if len(o.Refine) > 0 {
+		q2.Asserts = append(q2.Asserts, o.Refine...)
+	}
+	to := opts.Timeout
+	if to == 0 || to > 20*time.Second {
+		to = 20 * time.Second
+	}
+	a2 := Solve(&q2, o.Name+".small", SolverCfg{Timeout: to, Seed: opts.Seed, WorkDir: work, Order: []string{"z3-new"}})
+	if a2.Result == "sat" {
+		a2.TimeS += ans.TimeS
+		return a2
+	}
+	return ans
 }
